@@ -23,6 +23,8 @@ def _simple(e, depth=0):
         return _simple(e["e"], depth + 1)
     if k == "Cast":
         return _simple(e["e"], depth + 1)
+    if k == "Index":
+        return _simple(e["e"], depth + 1) and _simple(e["i"], depth + 1)
     return False
 
 
@@ -85,9 +87,30 @@ def _int_chain(n):
     return el
 
 
+def _matches_to_eq(n):
+    """`matches!(e, Enum::Variant)` = `match e { Enum::Variant => true, _ => false }` on a unit variant is `e == Enum::Variant`"""
+    arms = n["arms"]
+    if len(arms) != 2 or any("guard" in a for a in arms) or not _simple(n["e"]):
+        return None
+    p0, p1 = arms[0]["pat"], arms[1]["pat"]
+    def boollit(b, v):
+        while b.get("k") == "Block" and not b.get("stmts") and "expr" in b:
+            b = b["expr"]
+        return b.get("k") == "Lit" and b.get("lk") == "bool" and str(b.get("v")).lower() == v
+    if p0.get("k") == "PLit" and p0.get("res") == "def" and "Ctor" in str(p0.get("dk", "")) and p1.get("k") == "PWild" and boollit(arms[0]["body"], "true") and boollit(arms[1]["body"], "false"):
+        rhs = {"k": "Path", "res": "def", "dk": p0.get("dk"), "def": p0.get("def"), "name": p0.get("name")}
+        c = _cmp("==", n["e"], rhs, n)
+        c["callee"] = None       # an overloaded `==` (PartialEq of the enum), like the one written by hand
+        return c
+    return None
+
+
 def _match_to_if(n):
     if n.get("k") != "Match" or n.get("src") != "Normal":
         return None
+    r = _matches_to_eq(n)
+    if r is not None:
+        return r
     r = _int_chain(n)
     if r is not None:
         return r
